@@ -48,20 +48,25 @@ def Kind.is32 (k : Kind) : Bool := k.vt.is32
 /-! ### float32 through float64 -/
 
 def isNaN32 (b : BitVec 32) : Bool := (b &&& 0x7f800000#32) == 0x7f800000#32 && (b &&& 0x007fffff#32) != 0#32
-def isSNaN32 (b : BitVec 32) : Bool := isNaN32 b && (b &&& 0x00400000#32) == 0#32
+
+/-- The quiet bit of a float32 NaN: bit 22 (`0x00400000`). -/
+def quietBit : BitVec 32 := BitVec.twoPow 32 22
+
+/-- Signalling NaN: a NaN whose quiet bit is clear. -/
+def isSNaN32 (b : BitVec 32) : Bool := isNaN32 b && !b.getLsbD 22
 
 /-- The composite `float32(float64(x))` on a bit pattern: every non-NaN float32 is exactly representable
 as a float64 (IEEE 754 §5.4.2) so it comes back unchanged; a NaN comes back with its quiet bit set and
 its sign and payload kept (CVTSS2SD/CVTSD2SS, FCVT).  Tied to the CPU by the harness: exhaustively over
 all 2^32 patterns in the thorough tier. -/
-def viaF64 (b : BitVec 32) : BitVec 32 := if isNaN32 b then b ||| 0x00400000#32 else b
+def viaF64 (b : BitVec 32) : BitVec 32 := if isNaN32 b then b ||| quietBit else b
 
 /-- The same fact stated abstractly: any pair of conversions with the two IEEE laws. -/
 structure F32Conv where
   widen : BitVec 32 → BitVec 64
   narrow : BitVec 64 → BitVec 32
   exact : ∀ b, isNaN32 b = false → narrow (widen b) = b
-  quiets : ∀ b, isNaN32 b = true → narrow (widen b) = b ||| 0x00400000#32
+  quiets : ∀ b, isNaN32 b = true → narrow (widen b) = b ||| quietBit
 
 /-! ### callGoFunc -/
 
